@@ -1075,6 +1075,10 @@ def run(rep, tier):
         t1 = time.time()
         for s0 in range(0, len(cases), batch):
             run_class_cases(rep, cases[s0:s0 + batch], ctx, workdir, rnd, per_field)
+            for c in cases[s0:s0 + batch]:          # observations are only needed again for the two samples below
+                if c is not cases[0] and c is not cases[-1]:
+                    c.pop("obs", None)
+                    c.pop("cands", None)
         timing["oracle"] = round(time.time() - t1, 1)
         t1 = time.time()
         # correspondence cases: every spelling used, in its own context, plus Cls[...] context and corruptions
@@ -1200,6 +1204,8 @@ def run(rep, tier):
         timing["correspondence"] = round(time.time() - t1, 1)
     finally:
         core.cleanup(workdir)
+    import resource
+    timing["max_rss_mb"] = resource.getrusage(resource.RUSAGE_SELF).ru_maxrss // 1024
     rep.cov["timing_s"] = timing
     if not proofs_ok:
         from harness.props.c17 import broken_build
